@@ -11,8 +11,9 @@ numbers of equal length (the code broadcasts over arrays; the model is evaluated
   `ker.sbvn     x y mu0 mu1 sxx syy`          `sbvn_cdf` at `Float`
   `ker.bvn      x y mu0 mu1 sxx syy sxy`      `bvn_cdf` at `Float`
   `ker.bvn_old  x y mu0 mu1 sxx syy sxy`      `bvn_cdf` before 378a266 (`asr > 100`) at `Float`
+  `ker.bvn_oldtail …`                         `bvn_cdf` before 4b6a233 (unmasked `exp` in `ep1`) at `Float`
   `ker.ncdf     x`                            `norm_cdf` at `Float`
-  `ker.glq      r`                            `gauss_legendre_quad`: `[lg, w, x]` at `Rat` (exact digits)
+  `ker.glq      r`                            `gauss_legendre_quad`: rule chosen at `Float`, `[lg, w, x]` answered at `Rat` (exact digits)
 -/
 namespace PersimVerif.Drv.Kernels
 open PersimVerif Val PersimVerif.Drv PersimVerif.Kernels
@@ -23,6 +24,7 @@ def Φf : Float → Float := PersimVerif.Erfc.normCdf
 
 def bvnF := bvn Float.exp Float.sin Float.asin Float.sqrt Φf piF
 def bvnOldF := bvnOld Float.exp Float.sin Float.asin Float.sqrt Φf piF
+def bvnOldTailF := bvnOldTail Float.exp Float.sin Float.asin Float.sqrt Φf piF
 
 /-- a scalar or a list of scalars -/
 def vec? (f : Val → Option α) : Val → Option (List α × Bool)
@@ -60,6 +62,9 @@ def handle : Handler
   | "ker.bvn_old", [x, y, m0, m1, a, b, c] => do
     let m0 ← asFloat? m0; let m1 ← asFloat? m1; let a ← asFloat? a; let b ← asFloat? b; let c ← asFloat? c
     pointwise asFloat? Val.flt x y fun x y => bvnOldF x y m0 m1 a b c
+  | "ker.bvn_oldtail", [x, y, m0, m1, a, b, c] => do
+    let m0 ← asFloat? m0; let m1 ← asFloat? m1; let a ← asFloat? a; let b ← asFloat? b; let c ← asFloat? c
+    pointwise asFloat? Val.flt x y fun x y => bvnOldTailF x y m0 m1 a b c
   | "ker.ncdf", [x] => do
     let (xs, l) ← vec? asFloat? x
     let vs := xs.map fun x => Val.flt (Φf x)
@@ -67,8 +72,9 @@ def handle : Handler
     | false, [v] => pure v
     | _, _ => pure (.list vs)
   | "ker.glq", [r] => do
-    let r ← asRat? r
-    let rule : GLRule Rat := glRule r
+    -- the rule is chosen as the code chooses it (thresholds rounded to double); the tables are answered exactly
+    let lg := (glRule (α := Float) (← asFloat? r)).lg
+    let rule : GLRule Rat := if lg == 3 then gl3 else if lg == 6 then gl6 else gl10
     pure (.list [Val.ofNat rule.lg, Val.ofRats rule.w, Val.ofRats rule.x])
   | _, _ => none
 
